@@ -57,7 +57,7 @@ class P(Prop):
         if rng.random() < 0.25:
             # escaped identifiers
             victims = [n for n in c.graph.nodes if "." not in n]
-            mp = {n: "\\" + n + rng.choice([".x", "[0]", "$", "", "", "(0)", ",en", ";", ")", "(", "[1:0]"]) for n in rng.sample(victims, min(2, len(victims)))}
+            mp = {n: "\\" + n + rng.choice([".x", "[0]", "$", "", "", "(0)", ",en", ";", ")", "(", "[1:0]", "-endmodule", ".module.y", "/input"]) for n in rng.sample(victims, min(2, len(victims)))}
             c = cg.tx.relabel(c, mp)
             # `\\en ` next to `en`: two different nodes for the library
             twins = [v for k, v in mp.items() if v == "\\" + k and c.type(v) == "input"]
@@ -144,6 +144,13 @@ class P(Prop):
             sig = S(f"readback-raised-{o}")
             if dollar and o == "other:UnexpectedCharacters" and not captured:
                 sig = "readback-raised-other:UnexpectedCharacters:dollar-identifier"
+            # K55 (narrow): an ESCAPED identifier in which `endmodule` stands as a word of its own (`\\x-endmodule`,
+            # `\\endmodule`): the module-extraction regex `\bendmodule\b` cuts the text there, the grammar sees a truncated module
+            import re as _re
+            kw = [n for n in c.graph.nodes if n.startswith("\\") and _re.search(r"\bendmodule\b", n)]
+            kw += [i for i in c.blackboxes if i.startswith("\\") and _re.search(r"\bendmodule\b", i)]
+            if kw and o == "other:UnexpectedToken" and not captured and not dollar:
+                sig = "readback-raised-other:UnexpectedToken:endmodule-in-escaped-name"
             self.fail("search", sig, f"reading the written text back raised {o}", case)
             return
         if c2.name != c.name or c2.inputs() != c.inputs() or c2.outputs() != c.outputs():
@@ -187,6 +194,11 @@ class P(Prop):
         c.add("a$1", "input")
         c.add("b", "input")
         c.add("o", "and", fanin=["a$1", "b"], output=True)
+        self.oracle(c, False)
+        # K55 (known): an escaped identifier that contains the word `endmodule`
+        c = cg.Circuit("k55")
+        c.add("a", "input")
+        c.add("\\x-endmodule", "not", fanin="a", output=True)
         self.oracle(c, False)
 
     def search(self, n):
